@@ -644,6 +644,14 @@ func (e *Enc) encConvert(fr *Frame, st *State, in *ssa.Convert) *Val {
 				e.heapSet(st, key, sort, "(store "+h+" "+r+" ("+f+" "+x.L[0].T+"))")
 				ln := "(strlen " + x.L[0].T + ")"
 				e.assert("(<= 0 " + ln + ")")
+				// when the prelude declares `ghost func sbytes(s string) bytes`, the abstract content of []byte(s) is sbytes(s)
+				if g, ok := e.DB.Ghosts["sbytes"]; ok && g.Body == nil && len(g.Params) == 1 {
+					if gn, gs, err := e.ghostSymbol(g); err == nil && gs == "Bytes" {
+						bs := e.declFun("bseq", []string{"(Array Int Int)", "Int", "Int"}, "Bytes")
+						e.bytesInterpretation(bs)
+						e.assert("(= (" + bs + " (" + f + " " + x.L[0].T + ") 0 " + ln + ") (" + gn + " " + x.L[0].T + "))")
+					}
+				}
 				return &Val{T: in.Type(), L: []Sc{{r, "Int"}, {"0", "Int"}, {ln, "Int"}, {ln, "Int"}}}
 			}
 		}
